@@ -117,7 +117,7 @@ class Namespace(MutableMapping):
         try:
             return ns.names[name]
         except KeyError:
-            if self.parent:
+            if self.parent is not None:
                 return self.parent[name]
             else:
                 raise
